@@ -266,14 +266,14 @@ impl Check for C15 {
         vec![
             Phase { name: "boundary lattice (every listed integer x every position x every encoding)", cases: lattice().len() as u64, exhaustive: true },
             Phase { name: "log-uniform samples over [-2^64, 2^64-1] x every position x every encoding", cases: scale(if q { 16000 } else { 400000 }, b), exhaustive: false },
-            Phase { name: "birthday: 2^18 pairwise distinct 64-bit integer labels in a header / key / claims map (decode), header / key (encode)", cases: 5, exhaustive: true },
+            Phase { name: "birthday: 2^18 pairwise distinct 64-bit integer labels in a header / key / claims map (decode), header / key (encode; also with text labels, which share the duplicate detector)", cases: 7, exhaustive: true },
         ]
     }
     fn run_case(&self, ctx: &mut Ctx, phase: usize, idx: u64) {
         let pos = positions();
         match phase {
             2 => {
-                let w = [1u64, 3, 5, 8, 10][idx as usize];
+                let w = [1u64, 3, 5, 8, 10, 7, 9][idx as usize];
                 super::common::birthday_case(ctx, w);
             }
             0 => {
